@@ -730,6 +730,16 @@ def open_bodies(rnd, remoteAS, localID, limit=None):
 def open_cases(rnd, limit_per_cfg=None, random_bodies=0):
     """C02 end-to-end: OPEN body x configuration x direction."""
     out = []
+    # local hold time 0 / 3 with every remote hold time around the boundary
+    for lh in (0, 3):
+        for rh in (0, 1, 2, 3, 4, 65535):
+            for d in DIRS:
+                b = Sb("open-lh%d-rh%d-%s" % (lh, rh, d), [peer(hold=lh)])
+                b.start()
+                c = b.to_state("openSent", direction=d)
+                b.open(c, hold=rh)
+                b.ka(c).upd(c).adv(1)
+                out.append(b.tag("open", "hold").build())
     cfgs = [("as2", 65001, 65002, "10.0.0.1"), ("same-as", 65002, 65002, "10.0.0.1"),
             ("as4", 65001, 4200000002, "10.0.0.1"), ("as4-same", 4200000002, 4200000002, "10.0.0.9"),
             ("astrans-real", 65001, 23456, "10.0.0.1")]
